@@ -1,5 +1,6 @@
 import ParolModel.Props.C09
 import ParolModel.Proofs.CanonTerm
+import ParolModel.Proofs.CanonFinal
 import ParolModel.Model.TransformProto
 /-! # C09b — EBNF canonicalisation terminates
 
@@ -74,6 +75,27 @@ theorem canon_driver_fuel_suffices (ty : GType) (E : List EProd) :
   unfold canonFuel
   omega
 
+/-- **C09, termination with a result**: if no production and no group / optional / repetition at
+    any depth has an empty list of alternations (`NoEmptyAlts`), then `finalize` cannot fail
+    either: with fuel above the measure `transform_productions` returns plain productions, for both
+    grammar types. (In the state the loops leave, every production has exactly one alternation
+    consisting of terminals and non-terminals only.) -/
+theorem canon_total (ty : GType) (E : List EProd) (hne : NoEmptyAlts E) (fuel : Nat)
+    (hf : canonMeasure E < fuel) : ∃ B, canon ty fuel E = .ok B :=
+  canon_ok_of_noEmptyAlts ty E hne fuel hf
+
+/-- **C09, the driver always answers `ok …`** on what the front end accepts
+    (`frontEndRejects E = false`: no `EmptyGroup` / `EmptyOptional` / `EmptyRepetition`, …) when
+    every production has at least one alternation (the parser cannot build one without): never
+    `fuel-exhausted`, `panic` or `finalize-error`. Together with `canon_preserves_lang` and
+    `helper_fresh` of `Props/C09.lean` this makes C09 a statement about every accepted grammar. -/
+theorem canon_total_accepted (ty : GType) (E : List EProd) (hacc : frontEndRejects E = false)
+    (halts : ∀ p ∈ E, p.alts ≠ []) : ∃ B, canon ty (canonFuel E) E = .ok B := by
+  apply canon_ok_of_noEmptyAlts ty E (noEmptyAlts_of_accepted hacc halts)
+  have := canonMeasure_le_size E
+  unfold canonFuel
+  omega
+
 /-! ## non-vacuity -/
 
 /-- `S: {"a"} ("b" | "c" SList);` (finding F7's grammar): one repetition, one group -/
@@ -94,8 +116,11 @@ example : canonMeasure nestedE = 6 ∧ optCount nestedE = 1 := by decide
 example : (match canon .ll (canonMeasure nestedE + 1) nestedE with | .ok _ => true | _ => false) = true := by
   decide
 
+example : frontEndRejects f7E = false ∧ ∀ p ∈ f7E, p.alts ≠ [] := by decide
+example : frontEndRejects nestedE = false ∧ ∀ p ∈ nestedE, p.alts ≠ [] := by decide
+
 /-- the `finalize` error is a real outcome of the model (a group without alternations — the front
-    end refuses such input, `frontEndRejects`), so the disjunction cannot be dropped -/
+    end refuses such input, `frontEndRejects`), so the disjunction of `canon_terminates` cannot be dropped without `NoEmptyAlts` -/
 example : canon .ll 10 [⟨"A".toList, [⟨[.group []], .none⟩]⟩] = .finalizeError := by decide
 example : frontEndRejects [⟨"A".toList, [⟨[.group []], .none⟩]⟩] = true := by decide
 
